@@ -77,6 +77,11 @@ func C17(tier Tier) int {
 			case l.OK():
 				e.Fail(P, "fault", site+":reported-ok", fmt.Sprintf("class %s: dependency call %d of %d (%s %s) failed, yet %s returned Ok", c.Name, k, len(counted), d.Kind, uni.Name([]byte(d.Detail)), l.Func), "fault", map[string]interface{}{"class": c.Name, "k": k})
 				e.Case("fault:ok")
+			case l.Err == nil:
+				// neither Ok nor an error (a nil output with a nil error, or an output with another
+				// return code and no error): the caller is not told to roll back
+				e.Fail(P, "fault", site+":no-error-reported", fmt.Sprintf("class %s: dependency call %d of %d (%s %s) failed, yet %s returned no error (output nil: %v)", c.Name, k, len(counted), d.Kind, uni.Name([]byte(d.Detail)), l.Func, l.Out == nil), "fault", map[string]interface{}{"class": c.Name, "k": k})
+				e.Case("fault:no-error")
 			case l.Out != nil:
 				e.Fail(P, "fault", site+":output-and-error", fmt.Sprintf("class %s: error returned together with an output", c.Name), "fault", map[string]interface{}{"class": c.Name, "k": k})
 				e.Case("fault:both")
@@ -204,6 +209,8 @@ func faultHook(property string) func(c *explore.Ctx, pre *world.World, act world
 				c.Report(property, "fault", site+":panic", fmt.Sprintf("%s: with dependency call %d (%s) failing the function panicked: %v", DescribeAction(act), k, d.Kind, l.Panic))
 			case l.OK():
 				c.Report(property, "fault", site+":reported-ok", fmt.Sprintf("%s: dependency call %d of %d (%s %s) failed, yet %s returned Ok", DescribeAction(act), k, len(counted), d.Kind, uni.Name([]byte(d.Detail)), fn))
+			case l.Err == nil:
+				c.Report(property, "fault", site+":no-error-reported", fmt.Sprintf("%s: dependency call %d of %d (%s %s) failed, yet %s returned no error (output nil: %v)", DescribeAction(act), k, len(counted), d.Kind, uni.Name([]byte(d.Detail)), fn, l.Out == nil))
 			case l.Out != nil:
 				c.Report(property, "fault", site+":output-and-error", fmt.Sprintf("%s: error returned together with an output", DescribeAction(act)))
 			default:
